@@ -1029,6 +1029,80 @@ Section FPP.
       tauto.
     Qed.
 
+    (* ---------------------------------------------------------------- termination with the rank only on good states *)
+    Section TermRel.
+      Variable rank : S -> nat.
+      Variable h : nat.
+      Hypothesis rank_le : forall s, good s -> rank s <= h.
+      Hypothesis rank_gt : forall a b, good a -> good b -> cmp a b = Some Gt -> rank b < rank a.
+      Variable U : list L.
+      Hypothesis U_nodup : NoDup U.
+      Hypothesis U_reach : forall l, reach l -> In l U.
+      Variable d : nat.
+      Hypothesis deg : forall l, reach l -> length (succ l) <= d.
+
+      Lemma mu_step_rel m l q' m2 q2 :
+        Rch m (l :: q') -> Fed m (l :: q') -> Good m -> bstep false m l q' = Next m2 q2 ->
+        mu rank h U d m2 q2 < mu rank h U d m (l :: q').
+      Proof.
+        intros HR HF HG Hb. assert (Rl : reach l) by (apply HR; right; left; reflexivity).
+        destruct (bstep_next _ _ _ _ _ _ Hb) as (ps & st & new & H1 & H2 & H3 & [(old & Hl & Hc & -> & ->)|(s & ss & Hp & -> & -> & Hs)]).
+        - unfold mu. cbn [length]. lia.
+        - rewrite (from_ok _ Rl) in H1. inversion H1; subst ps.
+          rewrite (to_ok _ Rl) in Hp. inversion Hp; subst ss.
+          assert (Kn : good new).
+          { eapply (good_trans l st); try eassumption.
+            - intros ->. destruct (HF l (or_introl eq_refl)) as [->|Hex]; [reflexivity|].
+              exfalso. eapply join_neighbours_some; eauto.
+            - eapply join_neighbours_good; eassumption. }
+          assert (Hphi : phi rank h U (insert m l s) < phi rank h U m).
+          { unfold phi. apply sum_decr with (l := l); [assumption|apply U_reach; assumption| |].
+            - intros x Nx. unfold weight. rewrite lookup_insert_other by assumption. reflexivity.
+            - unfold weight. rewrite lookup_insert_same.
+              destruct Hs as [[Hl ->]|(old & Hl & Hc & [(_ & Hgt & ->)|(Hf & _)])]; [rewrite Hl; lia| |discriminate].
+              rewrite Hl. pose proof (rank_gt _ _ Kn (HG _ _ Hl) Hgt). pose proof (rank_le _ Kn). lia. }
+          pose proof (push_all_length q' (succ l)) as Hlen. pose proof (deg _ Rl) as Hd. unfold mu. cbn [length].
+          assert (d * phi rank h U (insert m l s) + d <= d * phi rank h U m) by nia. lia.
+      Qed.
+
+      Lemma term_exists_rel : forall k m q, Rch m q -> Fed m q -> Good m -> mu rank h U d m q <= k ->
+        exists n o, n <= k /\ term false m q n o.
+      Proof.
+        induction k as [|k IH]; intros m q HR HF HG Hk.
+        - destruct q as [|l q']; [exists 0, (Done m); split; [lia|constructor]|]. unfold mu in Hk. cbn [length] in Hk. lia.
+        - destruct q as [|l q']; [exists 0, (Done m); split; [lia|constructor]|].
+          destruct (bstep false m l q') as [m2 q2|o] eqn:Hb.
+          + pose proof (mu_step_rel _ _ _ _ _ HR HF HG Hb) as Hlt.
+            destruct (IH m2 q2 (Rch_step _ _ _ _ _ _ HR Hb) (Fed_step _ _ _ _ _ _ HR HF Hb) (Good_step _ _ _ _ _ _ HR HF HG Hb))
+              as (n & o & Hn & Ht); [lia|].
+            exists (Datatypes.S n), o. split; [lia|]. eapply term_next; eassumption.
+          + exists 1, o. split; [lia|]. apply term_stop; assumption.
+      Qed.
+
+      (* fp_terminates (force = false) with the finite-height hypotheses required on good states only *)
+      Theorem fp_terminates_rel :
+        exists n o, n <= 1 + d * (length U * Datatypes.S h) /\ term false [] [entry] n o.
+      Proof.
+        apply term_exists_rel; [apply Rch_init|apply Fed_init|apply Good_nil|].
+        unfold mu. rewrite phi_nil. cbn [length]. lia.
+      Qed.
+
+      Corollary fp_budget_suffices_rel max :
+        1 + d * (length U * Datatypes.S h) <= Datatypes.S max ->
+        exists n o, term false [] [entry] n o /\ run (Datatypes.S (Datatypes.S max)) false max 0 [] [entry] = o.
+      Proof.
+        intros Hm. destruct fp_terminates_rel as (n & o & Hn & Ht). exists n, o. split; [assumption|].
+        apply (term_run _ _ _ _ _ Ht); lia.
+      Qed.
+
+      Corollary fp_terminates_rel_nobudget fuel :
+        1 + d * (length U * Datatypes.S h) < fuel -> run_nobudget fuel false [] [entry] <> OutOfFuel.
+      Proof.
+        intros Hf. destruct fp_terminates_rel as (n & o & Hn & Ht).
+        rewrite (term_run_nobudget _ _ _ _ _ Ht) by lia. eapply term_not_oof; eassumption.
+      Qed.
+    End TermRel.
+
     (* ---------------------------------------------------------------- monotone analyses complete without error *)
     Section Complete.
       (* partial_cmp reports a state that is above the old one as Greater or Equal *)
